@@ -19,7 +19,8 @@ ASSUMPTIONS = ["little-endian host for ndarray.view(intN)", "uint8 arrays hold v
 NOT_PROVED = ["header parse and byte-exact header replay on write, EOF block, gzip/BGZF layer: bounded",
               "chunked reading equals whole reading (NumpyFileReader with BamBuffer): C01 kernel + bounded",
               "reference-name lookup by refID including refID = -1: bounded (see known findings)",
-              "sequence nibble unpacking through the ragged reshuffle, read names, qualities, CIGAR ragged views: bounded"]
+              "the variable-length field getters are proved MODULARLY: their offset arrays are abstract and constrained as the (separately proved) "
+              "offset contracts say; the composition get_field_by_number -> getter and the cached_property plumbing are bounded"]
 
 
 class St(types.SimpleNamespace):
@@ -142,7 +143,178 @@ split_cigar = Contract("C16.split_cigar[flat]", target=_split_cigar, setup=_setu
                        requires=lambda ctx, st: [st.m >= 0, Forall(lambda i: And(st.c(i) >= 0, st.c(i) < 2 ** 32), triggers=[st.c], name="uint32")],
                        ensures=_ens_cigar, canaries=[("mask 3 bits", "2**4-1", "2**3-1"), ("shift 3", "cigars >> 4", "cigars >> 3")])
 
-CONTRACTS = [flag, position, mapq, l_read_name, l_seq, cigar_bytes, read_name_start, cigar_start, sequence_start, quality_start, split_cigar]
+
+# --- _get_sequences: 4-bit unpacking, high nibble first, trimmed to l_seq --------------------------------------------------------------
+# Modular: the offsets are abstract arrays constrained as their own (proved) contracts say: _quality_start = _sequence_start + (l_seq+1)//2.
+def _setup_seq(ctx):
+    st = St()
+    st.n, st.N = z3.Int("n_records"), z3.Int("n_bytes")
+    st.D = z3.Function("byte", z3.IntSort(), z3.IntSort())
+    st.ss = z3.Function("seq_start", z3.IntSort(), z3.IntSort())
+    st.L = z3.Function("l_seq", z3.IntSort(), z3.IntSort())
+    st.data = SArr.fresh(st.N, lambda p: st.D(I(p)))
+    st.nb = lambda i: M._divmod_noassert(st.L(i) + 1, 2)[0]
+    st.selfv = SRec(_X(), _data=st.data, _new_lines=Opaque("record starts"), _ends=Opaque("record ends"), _is_contigous=True, _header_data=Opaque("header"),
+                    _sequence_start=SArr.fresh(st.n, lambda i: st.ss(I(i))), _quality_start=SArr.fresh(st.n, lambda i: st.ss(I(i)) + st.nb(I(i))))
+    st.args = []
+    return st
+
+
+def _req_seq(ctx, st):
+    return [st.n >= 0, st.N >= 0,
+            Forall(lambda p: And(st.D(p) >= 0, st.D(p) < 256), triggers=[st.D], name="bytes are 0..255"),
+            Forall(lambda i: Implies(in_range(i, st.n), And(st.L(i) >= 0, st.ss(i) >= 0, st.ss(i) + st.nb(i) <= st.N)), triggers=[st.ss],
+                   name="l_seq >= 0 and the packed sequence lies inside the chunk"),
+            Forall(lambda i: Implies(in_range(i, st.n), And(st.L(i) >= 0, st.ss(i) >= 0, st.ss(i) + st.nb(i) <= st.N)), triggers=[st.L],
+                   name="l_seq >= 0 and the packed sequence lies inside the chunk'")]
+
+
+def _nibble(st, i, k):
+    q, r = M._divmod_noassert(k, 2)
+    byte = st.D(st.ss(i) + q)
+    hi, lo = M._divmod_noassert(byte, 16)
+    return Ite(r == 0, hi, lo)
+
+
+def _ens_seq(ctx, st, ret):
+    return [("rows", I(ret.n) == st.n),
+            ("row.length.is.l_seq", Forall(lambda i: Implies(in_range(i, st.n), I(ret.lens(i)) == st.L(i)))),
+            ("base.k.is.nibble.k (high nibble first)", Forall(lambda i, k: Implies(And(in_range(i, st.n), in_range(k, st.L(i))),
+                                                                                  I(ret.at(i, k)) == _nibble(st, i, k)), nvars=2)),
+            ("encoding", ret.enc is not None)]
+
+
+def _ghost_seq(ip, env, st):
+    """lemma (L6, premise obliged): the rows cut by ragged_slice have exactly n_seq_bytes bytes each, so their row offsets are the prefix
+    sums of n_seq_bytes; together with L8 (prefix sums of 2*x) this relates the byte offsets to the base offsets of the unpacked array"""
+    rag, nsb = env.vars["sequences"], env.vars["n_seq_bytes"]
+    C1 = M.exclusive_prefix(rag.lens, rag.n)
+    fn = nsb.snapshot()
+    Cn = M.exclusive_prefix(fn, nsb.length, nsb)
+    M.prefix_congruent(C1, rag.lens, Cn, fn, st.n, "lemma.packed.row.lengths.are.n_seq_bytes")
+    M.prefix_monotone(Cn, fn, st.n, "lemma.n_seq_bytes.nonneg")
+    st.Cn = Cn
+
+
+sequences = Contract("C16.BamBufferExtractor._get_sequences", target=lambda: _X()._get_sequences, setup=_setup_seq, requires=_req_seq, ensures=_ens_seq,
+                     ghost=[("sequences = EncodedArray(", _ghost_seq)],
+                     hints=lambda ctx, st, ks: [t for k in ks[:1] for t in (st.Cn(k), st.Cn(k + 1))] if hasattr(st, "Cn") else [],
+                     callees={"bionumpy.io.bam.BamBufferExtractor._get_sequence_length": lambda ip, args, kwargs, lineno: SArr.fresh(_hs["st"].n, lambda i: _hs["st"].L(I(i)))},
+                     canaries=[("low nibble first", "np.arange(2, dtype=np.uint8)[::-1]", "np.arange(2, dtype=np.uint8)"),
+                               ("not trimmed to l_seq", "view = RaggedView(new_sequences._shape.starts, l_seq)", "view = RaggedView(new_sequences._shape.starts, n_seq_bytes * 2)"),
+                               ("mask 7", "np.uint8(15)", "np.uint8(7)")])
+_hs = {}
+_setup_seq0 = _setup_seq
+
+
+def _setup_seq(ctx):
+    st = _setup_seq0(ctx)
+    _hs["st"] = st
+    return st
+
+
+sequences.setup = _setup_seq
+
+
+# --- _get_quality, _get_read_name, _get_cigar: variable-length fields cut out of the chunk (modular: abstract offset arrays) --------------
+def _mk_var(fields):
+    def setup(ctx):
+        st = St()
+        st.n, st.N = z3.Int("n_records"), z3.Int("n_bytes")
+        st.D = z3.Function("byte", z3.IntSort(), z3.IntSort())
+        st.data = SArr.fresh(st.N, lambda p: st.D(I(p)))
+        kw = {}
+        for f in fields:
+            fn = z3.Function(f.strip("_"), z3.IntSort(), z3.IntSort())
+            setattr(st, f.strip("_"), fn)
+            kw[f] = SArr.fresh(st.n, lambda i, fn=fn: fn(I(i)))
+        st.L = z3.Function("l_seq", z3.IntSort(), z3.IntSort())
+        st.selfv = SRec(_X(), _data=st.data, _new_lines=Opaque("record starts"), _ends=Opaque("record ends"), _is_contigous=True,
+                        _header_data=Opaque("header"), **kw)
+        st.args = []
+        _hs["st"] = st
+        return st
+    return setup
+
+
+_LSEQ = {"bionumpy.io.bam.BamBufferExtractor._get_sequence_length": lambda ip, args, kwargs, lineno: SArr.fresh(_hs["st"].n, lambda i: _hs["st"].L(I(i)))}
+_BYTES = lambda st: Forall(lambda p: And(st.D(p) >= 0, st.D(p) < 256), triggers=[st.D], name="bytes are 0..255")
+
+def _stash(st, ret):
+    st.C = getattr(ret, "C", None)
+    return True
+
+
+def _row_hints(ctx, st, ks):
+    """mention the row offsets of the skolem row and its successor (instantiates the prefix-sum recurrence and monotonicity there)"""
+    C = getattr(st, "C", None)
+    return [t for k in ks[:1] for t in (C(k), C(k + 1))] if C is not None else []
+
+
+quality = Contract("C16.BamBufferExtractor._get_quality", hints=_row_hints, target=lambda: _X()._get_quality, setup=_mk_var(["_quality_start"]),
+                   requires=lambda ctx, st: [st.n >= 0, st.N >= 0, _BYTES(st),
+                                             Forall(lambda i: Implies(in_range(i, st.n), And(st.L(i) >= 0, st.quality_start(i) >= 0, st.quality_start(i) + st.L(i) <= st.N)),
+                                                    triggers=[st.quality_start], name="l_seq >= 0 and the qualities lie inside the chunk")],
+                   ensures=lambda ctx, st, ret: [("rows", _stash(st, ret) and I(ret.n) == st.n),
+                                                 ("row.length.is.l_seq", Forall(lambda i: Implies(in_range(i, st.n), I(ret.lens(i)) == st.L(i)))),
+                                                 ("quality.k.is.the.byte.at.quality_start+k", Forall(lambda i, k: Implies(And(in_range(i, st.n), in_range(k, st.L(i))),
+                                                                                                       I(ret.at(i, k)) == st.D(st.quality_start(i) + k)), nvars=2))],
+                   callees=_LSEQ,
+                   canaries=[("one byte short", "self._quality_start + self._get_sequence_length()", "self._quality_start + self._get_sequence_length() - 1"),
+                             ("starts one byte late", "ragged_slice(self._data, self._quality_start,", "ragged_slice(self._data, self._quality_start + 1,")])
+
+read_name = Contract("C16.BamBufferExtractor._get_read_name", hints=_row_hints, target=lambda: _X()._get_read_name, setup=_mk_var(["_read_name_start", "_cigar_start"]),
+                     requires=lambda ctx, st: [st.n >= 0, st.N >= 0, _BYTES(st),
+                                               Forall(lambda i: Implies(in_range(i, st.n), And(st.read_name_start(i) >= 0, st.read_name_start(i) + 1 <= st.cigar_start(i), st.cigar_start(i) <= st.N)),
+                                                      triggers=[st.read_name_start], name="l_read_name >= 1 (the NUL) and the name lies inside the chunk")],
+                     ensures=lambda ctx, st, ret: [("rows", _stash(st, ret) and I(ret.n) == st.n),
+                                                   ("row.length.is.l_read_name - 1 (NUL dropped)", Forall(lambda i: Implies(in_range(i, st.n), I(ret.lens(i)) == st.cigar_start(i) - 1 - st.read_name_start(i)))),
+                                                   ("character.k", Forall(lambda i, k: Implies(And(in_range(i, st.n), in_range(k, st.cigar_start(i) - 1 - st.read_name_start(i))),
+                                                                                              I(ret.at(i, k)) == st.D(st.read_name_start(i) + k)), nvars=2)),
+                                                   ("encoding", ret.enc is not None)],
+                     canaries=[("NUL kept", "self._cigar_start - 1)", "self._cigar_start)")])
+
+def _req_cigar2(ctx, st):
+    return [st.n >= 0, st.N >= 0, _BYTES(st),
+            Forall(lambda i: Implies(in_range(i, st.n), And(st.NC(i) >= 0, st.cigar_start(i) >= 0, st.sequence_start(i) == st.cigar_start(i) + 4 * st.NC(i),
+                                                           st.sequence_start(i) <= st.N)), triggers=[st.cigar_start],
+                   name="n_cigar_op >= 0, _sequence_start = _cigar_start + 4*n_cigar_op (their own contracts), inside the chunk"),
+            Forall(lambda i: Implies(in_range(i, st.n), And(st.NC(i) >= 0, st.cigar_start(i) >= 0, st.sequence_start(i) == st.cigar_start(i) + 4 * st.NC(i),
+                                                           st.sequence_start(i) <= st.N)), triggers=[st.sequence_start], name="same'")]
+
+
+def _setup_cigar2(ctx):
+    st = _mk_var(["_cigar_start", "_sequence_start"])(ctx)
+    st.NC = z3.Function("n_cigar_op", z3.IntSort(), z3.IntSort())
+    return st
+
+
+def _ens_cigar2(ctx, st, ret):
+    sym, ln = ret
+    st.C = getattr(sym, "C", None)
+    word = lambda i, j: LE(st.D, st.cigar_start(i) + 4 * j, 4, False)
+    return [("rows", And(I(sym.n) == st.n, I(ln.n) == st.n)),
+            ("ops.per.record", Forall(lambda i: Implies(in_range(i, st.n), And(I(sym.lens(i)) == st.NC(i), I(ln.lens(i)) == st.NC(i))))),
+            ("op.j.is.the.low.4.bits.of.word.j", Forall(lambda i, j: Implies(And(in_range(i, st.n), in_range(j, st.NC(i))),
+                                                                             I(sym.at(i, j)) == M._divmod_noassert(word(i, j), 16)[1]), nvars=2)),
+            ("length.j.is.word.j >> 4", Forall(lambda i, j: Implies(And(in_range(i, st.n), in_range(j, st.NC(i))),
+                                                                    I(ln.at(i, j)) == M._divmod_noassert(word(i, j), 16)[0]), nvars=2)),
+            ("op.encoding", sym.enc is not None)]
+
+
+def _ghost_cigar(ip, env, st):
+    """lemma by induction: every row offset of the CIGAR bytes is a multiple of 4 (so the uint32 view has whole words only)"""
+    rag = env.vars["cigars"]
+    C1 = M.exclusive_prefix(rag.lens, rag.n)
+    ip.ctx.induct("C16.BamBufferExtractor._get_cigar:lemma.cigar.byte.offsets.are.multiples.of.4",
+                  lambda j: M._divmod_noassert(C1(j), 4)[1] == 0, C1, lo=0, hi=st.n)
+
+
+cigar2 = Contract("C16.BamBufferExtractor._get_cigar", target=lambda: _X()._get_cigar, setup=_setup_cigar2, requires=_req_cigar2, ensures=_ens_cigar2,
+                  hints=_row_hints, ghost=[("cigars = RaggedArray(cigars.ravel().view(", _ghost_cigar)], rounds=2, timeout_ms=60000,
+                  canaries=[("words of 2 bytes", "cigars.lengths // 4", "cigars.lengths // 2"),
+                            ("cut one byte late", "ragged_slice(self._data, self._cigar_start,", "ragged_slice(self._data, self._cigar_start + 1,")])
+CONTRACTS = [sequences, quality, read_name, cigar2, flag, position, mapq, l_read_name, l_seq, cigar_bytes, read_name_start, cigar_start, sequence_start, quality_start, split_cigar]
 
 
 # --- BamBuffer._find_starts: record boundaries by chaining block_size fields -------------------------------------
